@@ -167,7 +167,7 @@ pub fn find_real(sc: &FindScenario, ctx: &mut Ctx, bins: &Path, sub: &str, cmd_t
     let _ = std::fs::write(&sp, script);
     let mut argv: Vec<String> = vec![];
     for a in &sc.argv {
-        if a == cmd_token {
+        if a == cmd_token || *a == format!("{cmd_token}2") {
             argv.push(ctx.simchild.to_string_lossy().into_owned());
             argv.push(lp.to_string_lossy().into_owned());
             argv.push(sp.to_string_lossy().into_owned());
